@@ -125,18 +125,24 @@ def run(ctx):
     # 1. model checking: safety + deadlock freedom, then liveness under weak fairness
     acts = ["m_init", "m_top", "m_run", "m_wk", "m_ss_acq", "m_ss_body", "m_ss_rel", "m_cl_body", "m_cl_rel",
             "m_cl_wk", "m_cl_join", "m_cl_rm", "m_cl_end", "s_acq", "s_cs", "s_woke", "s_sel_begin",
-            "s_sel_end", "s_post", "e_loop"]
+            "s_sel_end", "s_poll_begin", "s_poll_end", "s_post", "e_loop"]
     if ctx.quick:
         # one TLC run: invariants (NoDeadlock covers terminal states too) + liveness on FairSpec
         ctx.mc(SPEC, "SelectorThread", "MCQ_SelectorThread.cfg", required_actions=acts)
     else:
-        ctx.mc(SPEC, "SelectorThread", "MC_SelectorThread.cfg", overrides={"MaxChg": 4, "MaxEnv": 3},
+        ctx.mc(SPEC, "SelectorThread", "MC_SelectorThread.cfg", overrides={"MaxChg": 3, "MaxEnv": 2, "MaxClose": 1},
                required_actions=acts)
-        ctx.mc(SPEC, "SelectorThread", "MC_SelectorThread.cfg", overrides={"NF": 3, "MaxChg": 3, "MaxEnv": 2},
-               required_actions=acts)
+        noclose = [a for a in acts if not a.startswith("s_poll")]
+        ctx.mc(SPEC, "SelectorThread", "MC_SelectorThread.cfg", overrides={"MaxChg": 4, "MaxEnv": 3, "MaxClose": 0},
+               required_actions=noclose)
         ctx.mc(SPEC, "SelectorThread", "MC_SelectorThread.cfg",
-               overrides={"MaxChg": 3, "MaxEnv": 2, "MaxW": 3, "WFull": 3, "RecvMax": 2}, required_actions=acts)
-        ctx.mc(SPEC, "SelectorThread", "MCL_SelectorThread.cfg", overrides={"MaxChg": 3, "MaxEnv": 2},
+               overrides={"NF": 3, "MaxChg": 3, "MaxEnv": 2, "MaxClose": 0}, required_actions=noclose)
+        ctx.mc(SPEC, "SelectorThread", "MC_SelectorThread.cfg",
+               overrides={"MaxChg": 3, "MaxEnv": 2, "MaxW": 3, "WFull": 3, "RecvMax": 2, "MaxClose": 0},
+               required_actions=noclose)
+        ctx.mc(SPEC, "SelectorThread", "MCL_SelectorThread.cfg", overrides={"MaxChg": 3, "MaxEnv": 2, "MaxClose": 0},
+               required_actions=noclose)
+        ctx.mc(SPEC, "SelectorThread", "MCL_SelectorThread.cfg", overrides={"MaxChg": 2, "MaxEnv": 1, "MaxClose": 1},
                required_actions=acts)
     ctx._phase("mc", t0)
     t0 = time.time()
